@@ -636,6 +636,33 @@ def D67():
     return 'daily storage on an hourly grid with inflow: reported level %s, level from the reported flows %s (max deviation %.2f)' % (np.round(rep[:3], 2), np.round(phys[:3], 2), np.abs(rep - phys).max())
 
 
+@witness
+def D68():
+    import pandas as pd
+    from copy import deepcopy
+    tg = A.Timegrid(dt.date(2021, 1, 1), dt.date(2021, 1, 5), freq='d')
+    ob = A.OrderBook('ob', N1, orders=dict(start=[pd.Timestamp(2020, 1, 1), pd.Timestamp(2021, 1, 2)], end=[pd.Timestamp(2020, 1, 2), pd.Timestamp(2021, 1, 4)], capa=[1., 1.], price=[1., 5.]))
+    mk = A.SimpleContract(name='mk', nodes=N1, price='p', min_cap=-10, max_cap=10)
+    pf = eao.portfolio.Portfolio([ob, mk])
+    op = pf.setup_optim_problem({'p': 10 * np.ones(tg.T)}, tg)
+    slp = eao.stoch_lin_prog.make_slp(deepcopy(op), pf, tg, dt.date(2021, 1, 3), [{'p': 12 * np.ones(tg.T)}, {'p': 8 * np.ones(tg.T)}])
+    return 'order book with an order outside the grid: deterministic %.2f, two-stage SLP %.2f' % (op.optimize().value, slp.optimize().value)
+
+
+@witness
+def D69():
+    n1, n2 = A.Node('n1'), A.Node('n2')
+    tg = A.Timegrid(dt.datetime(2021, 1, 1), dt.datetime(2021, 1, 1, 1), freq='h')
+    t = A.Transport(name='t', nodes=[n1, n2], min_cap=-10, max_cap=10, efficiency=0.5)
+    src = A.SimpleContract(name='src', nodes=n2, price='p', min_cap=0, max_cap=10)
+    snk = A.SimpleContract(name='snk', nodes=n1, price='p', min_cap=-10, max_cap=0)
+    try:
+        r = eao.portfolio.Portfolio([t, src, snk]).setup_optim_problem({'p': np.ones(tg.T)}, tg).optimize()
+        return 'bidirectional transport with efficiency 0.5 and no costs, same price at both nodes: value %.2f (expected 0.00)' % r.value
+    except NotImplementedError as e:
+        return 'bidirectional transport with efficiency 0.5 and no costs is rejected: %s' % str(e)[:60]
+
+
 if __name__ == '__main__':
     which = sys.argv[1:] or list(W)
     for k in which:
